@@ -157,6 +157,9 @@ size_t apduCmdDec(apdu_cmd_t* cmd, const octet apdu[], size_t count)
 				return SIZE_MAX;
 			cdf_len_len = 3;
 			cdf_len = apdu[1], cdf_len *= 256, cdf_len += apdu[2];
+			// в расширенной форме Lc отличается от 0x0000
+			if (cdf_len == 0)
+				return SIZE_MAX;
 		}
 		apdu += cdf_len_len, count -= cdf_len_len;
 	}
